@@ -181,6 +181,8 @@ def to_list(ex: Any, x: V, st: State) -> Iterator[Tuple[V, State]]:
         # copy: a fresh object with the same contents
         ref, st = ex.alloc(st)
         if x.view == "seq":
+            if x.ref.get_id() in st.lens:
+                st.lens = {**st.lens, ref.get_id(): st.lens[x.ref.get_id()]}
             st = st.hset("L.len", z3.Store(ex._len_arr(st), ref, z3.Select(ex._len_arr(st), x.ref)))
             key, el = ex._elem_arr(st, x.elem)
             st = st.hset(key, z3.Store(el, ref, z3.Select(el, x.ref)))
@@ -229,6 +231,8 @@ def call_method(ex: Any, selfv: V, name: str, args: List[V], kwargs: Dict[str, V
 
 
 def list_method(ex: Any, l: VList, name: str, args: List[V], st: State, node: ast.AST) -> Iterator[Tuple[V, State]]:
+    if name in ("append", "remove", "extend", "pop", "insert"):
+        st = ex.forget_len(l, st)
     if name == "append":
         (x,) = args
         if l.view == "seq":
